@@ -31,7 +31,8 @@ type vlVec struct {
 	Sizes string  `json:"sizes"`
 	Count int     `json:"count"`
 	Side  string  `json:"side"`
-	Net   string  `json:"net"` // loopback | delay (in-process network, jitter reorders datagrams) | loss (it also drops some)
+	Slow  bool    `json:"slow"` // the receiving application takes its time (2.5 s) in OnDataChannel before it registers OnMessage
+	Net   string  `json:"net"`  // loopback | delay (in-process network, jitter reorders datagrams) | loss (it also drops some)
 }
 
 // vlNetPair connects two endpoints over an in-process network (pion/transport vnet): every datagram is
@@ -140,6 +141,9 @@ func vlRun(t *testing.T, tr *vkTrace, id int, v vlVec) { //nolint:cyclop
 		mu.Lock()
 		remoteSeen[d.Label()] = true
 		mu.Unlock()
+		if v.Slow { // messages sent meanwhile wait: the channel is handed to the application first
+			time.Sleep(2500 * time.Millisecond)
+		}
 		d.OnMessage(func(m DataChannelMessage) {
 			mu.Lock()
 			recvCount[d.Label()]++
